@@ -178,6 +178,12 @@ func (P *Program) reachNoGo(roots ...*ssa.Function) map[*ssa.Function]bool {
 					continue
 				}
 				if c := e.Callee.Func; c != nil && !seen[c] {
+					// a function literal whose closure value never leaves its lexical parent (it is only
+					// called, deferred or started there) cannot be the target of a dynamic call elsewhere: the
+					// CHA edge into it from an unrelated `f()` is an artefact
+					if c.Parent() != nil && c.Parent() != f && closureStaysLocal(c) {
+						continue
+					}
 					seen[c] = true
 					stack = append(stack, c)
 				}
@@ -221,6 +227,30 @@ func r03_1(c *Ctx) {
 				}
 			}
 		})
+	} else {
+		// the initialiser is a method passed to Once.Do as a method value (`j.initDone.Do(j.setup)`): every
+		// use of it in the module is such a bound-method closure handed to Once.Do
+		uses, viaOnce := 0, 0
+		for _, f := range P.Funcs {
+			if !inSSEPackage(f) {
+				continue
+			}
+			eachInstr(f, func(in ssa.Instruction) {
+				if call, ok := isStaticCall(in, "(*sync.Once).Do"); ok {
+					if mc, ok := call.Call.Args[1].(*ssa.MakeClosure); ok {
+						if w, ok := mc.Fn.(*ssa.Function); ok && boundMethodTarget(w) == jp.initFn {
+							viaOnce++
+						}
+					}
+				}
+				if ci, ok := in.(ssa.CallInstruction); ok && ci.Common().StaticCallee() == jp.initFn {
+					if w := ci.Parent(); boundMethodTarget(w) != jp.initFn {
+						uses++
+					}
+				}
+			})
+		}
+		onceOK = viaOnce > 0 && uses == 0
 	}
 	c.check(onceOK, fnLabel(jp.initFn)+":go-under-once", P.ipos(jp.goInstr), "the loop goroutine is started inside sync.Once.Do: exactly one loop exists",
 		"the go statement starting Joe's loop is not inside a sync.Once.Do closure: two loops could run and no single publish order exists")
@@ -230,7 +260,7 @@ func r03_1(c *Ctx) {
 		if !isJoeCode(P, fn) {
 			continue
 		}
-		eachInstrDeep(fn, func(in ssa.Instruction) {
+		eachInstr(fn, func(in ssa.Instruction) {
 			if g, ok := in.(*ssa.Go); ok && g != jp.goInstr {
 				nGo++
 				c.bad(fnLabel(fn)+":extra-go", P.ipos(in), "another goroutine is started in Joe's code: operations are no longer serialised by the single loop")
@@ -262,7 +292,7 @@ func r03_1(c *Ctx) {
 		if !inSSEPackage(fn) {
 			continue
 		}
-		eachInstrDeep(fn, func(in ssa.Instruction) {
+		eachInstr(fn, func(in ssa.Instruction) {
 			for _, m := range []string{"Put", "Replay"} {
 				if _, ok := isInvoke(in, "sse", "Replayer", m); ok {
 					check(fn, "invoke(Replayer."+m+")", in)
@@ -507,11 +537,11 @@ func r03_6(c *Ctx) {
 							_, n, _, _ := fieldSel(v)
 							switch n {
 							case "message":
-								msgOK = u.Val == ssa.Value(fn.Params[1])
+								msgOK = u.Val == ssa.Value(fn.Params[1]) || carriesOnly(u.Val, fn.Params[1])
 							case "topics":
-								topOK = u.Val == ssa.Value(fn.Params[2])
+								topOK = u.Val == ssa.Value(fn.Params[2]) || carriesOnly(u.Val, fn.Params[2])
 							case "replayerErr":
-								repOK = stripConv(u.Val) == ssa.Value(reply)
+								repOK = stripConv(u.Val) == ssa.Value(reply) || carriesOnlyConv(u.Val, reply)
 							}
 							if v == ssa.Value(al) {
 								// whole-struct store from another local composite
@@ -538,22 +568,22 @@ func r03_6(c *Ctx) {
 		for _, s := range sources(ret.Results[0]) {
 			switch {
 			case isGlobalLoad(s, "ErrNoTopic"):
-				g := intGuard(fn, ret.Block(), isLenCallOf(func(v ssa.Value) bool { return v == ssa.Value(fn.Params[2]) }), 0, 0, 0)
+				g := intGuard(fn, ret.Block(), isLenCallOf(func(v ssa.Value) bool { return v == ssa.Value(fn.Params[2]) || carriesOnly(v, fn.Params[2]) }), 0, 0, 0)
 				c.check(g, name, P.ipos(ret), "ErrNoTopic only when len(topics)==0", "ErrNoTopic returned without len(topics)==0")
 			case isGlobalLoad(s, "ErrProviderClosed"):
 				g := false
 				if doneIdx >= 0 {
-					if e, ok := selectArmEdge(sel, doneIdx); ok && edgeDominates(e.From, e.Idx, ret.Block()) {
+					if e, ok := selectArmEdge(sel, doneIdx); ok && (edgeDominates(e.From, e.Idx, ret.Block()) || factGuards(fn, ret.Block(), factEdges(e))) {
 						g = true
 					}
 				}
 				c.check(g, name, P.ipos(ret), "ErrProviderClosed only on the <-j.done arm", "ErrProviderClosed returned outside the <-j.done arm: an accepted message would be reported as refused")
 			default:
 				u, ok := s.(*ssa.UnOp)
-				g := ok && u.Op == token.ARROW && stripConv(u.X) == ssa.Value(reply)
+				g := ok && u.Op == token.ARROW && (stripConv(u.X) == ssa.Value(reply) || carriesOnlyConv(u.X, reply) || replyThroughResult(u.X, reply))
 				if g && sendIdx >= 0 {
 					e, ok := selectArmEdge(sel, sendIdx)
-					g = ok && edgeDominates(e.From, e.Idx, ret.Block())
+					g = ok && (edgeDominates(e.From, e.Idx, ret.Block()) || factGuards(fn, ret.Block(), factEdges(e)))
 				}
 				if g {
 					c.ok(name, P.ipos(ret), "returns the value received from the reply channel after the loop accepted the message")
@@ -714,9 +744,11 @@ func r04_1(c *Ctx) {
 		return
 	}
 	blocked := map[cfgEdge]bool{}
-	for _, ifi := range ifsIn(lp.fn) {
-		if s, ok := nilEdge(ifi, func(v ssa.Value) bool { return lp.isReplayLoad(v) }); ok {
-			blocked[cfgEdge{ifi.Block(), s}] = true
+	for _, f := range regionFuncs(lp.fn) {
+		for _, ifi := range ifsIn(f) {
+			if s, ok := nilEdge(ifi, func(v ssa.Value) bool { return lp.isReplayLoad(v) }); ok {
+				blocked[cfgEdge{ifi.Block(), s}] = true
+			}
 		}
 	}
 	skip := reachesAvoiding(atEdge(e.From, e.Idx), lp.rng, func(in ssa.Instruction) bool { return in == ssa.Instruction(lp.tryPut) }, blocked)
@@ -726,7 +758,20 @@ func r04_1(c *Ctx) {
 
 func (lp *loopParts) isReplayLoad(v ssa.Value) bool {
 	a, ok := loadedFrom(v)
-	return ok && lp.replayCell != nil && cellRoot(a) == cellRoot(lp.replayCell)
+	if !ok || lp.replayCell != nil == false {
+		return false
+	}
+	if cellRoot(a) == cellRoot(lp.replayCell) {
+		return true
+	}
+	// through a pointer copy (`p := &replay; *p`), e.g. the parameter binding of an inlined helper
+	src := sources(a)
+	for _, sv := range src {
+		if cellRoot(sv) != cellRoot(lp.replayCell) {
+			return false
+		}
+	}
+	return len(src) > 0
 }
 
 func r04_2(c *Ctx) {
@@ -739,18 +784,41 @@ func r04_2(c *Ctx) {
 	fn := lp.fn
 	msg := lp.jp.recv("message")
 	send := lp.sends[0]
-	// Send's argument: load of <msgcell>.messageWithTopics.message
+	isPutM := extractOfCallPred(lp.tryPut, 0)
+	putErr := extractOfCallPred(lp.tryPut, 1)
+	isPublished := func(v ssa.Value) bool {
+		base, ok := isFieldLoad(v, "~", "type:*Message")
+		return ok && cellHoldsOnly(rootAddr(base), msg)
+	}
+	// Send's argument carries only the published message or Put's returned message
 	arg := send.Common().Args[0]
-	argOK := false
-	for _, sv := range sources(arg) {
-		base, ok := isFieldLoad(sv, "~", "type:*Message")
-		argOK = ok && cellHoldsOnly(rootAddr(base), msg)
-		if !argOK {
-			break
+	argSrc := sources(arg)
+	argOK := len(argSrc) > 0
+	viaPut := false
+	for _, sv := range argSrc {
+		switch {
+		case isPublished(sv):
+		case isPutM(sv):
+			viaPut = true
+		default:
+			argOK = false
 		}
 	}
-	c.check(argOK, fnLabel(fn)+":send-arg", P.ipos(send), "Send receives the message field of the cell holding the published message", "Send's argument is not loaded from the cell that holds the published message (a copy captured before Put would carry no ID)")
-	// the store of Put's result into that field
+	c.check(argOK, fnLabel(fn)+":send-arg", P.ipos(send), "Send receives the published message (or Put's returned copy of it)", "Send's argument is not loaded from the cell that holds the published message (a copy captured before Put would carry no ID)")
+	name := fnLabel(fn) + ":store-put-result"
+	// edges on which Put did not succeed with a message
+	region := regionFuncs(fn)
+	blocked := map[cfgEdge]bool{}
+	for _, f := range region {
+		for _, ifi := range ifsIn(f) {
+			for e := 0; e < 2; e++ {
+				if edgeEstablishes(ifi, e, factNil(isPutM, true)) || edgeEstablishes(ifi, e, factNil(putErr, false)) {
+					blocked[cfgEdge{ifi.Block(), e}] = true
+				}
+			}
+		}
+	}
+	// form A: Put's result is stored into the message field of the received cell
 	var st *ssa.Store
 	eachInstrDeep(fn, func(in ssa.Instruction) {
 		s, ok := in.(*ssa.Store)
@@ -758,39 +826,86 @@ func r04_2(c *Ctx) {
 			return
 		}
 		if b, ok := isFieldSel(s.Addr, "~", "type:*Message"); ok && cellHoldsOnly(rootAddr(b), msg) {
-			if extractOfCallPred(lp.tryPut, 0)(s.Val) {
+			if isPutM(s.Val) {
 				st = s
 			}
 		}
 	})
-	name := fnLabel(fn) + ":store-put-result"
-	if st == nil {
-		c.bad(name, P.ipos(lp.tryPut), "Put's returned message (the copy that carries the automatic ID) is never stored into the message that is fanned out: live delivery and replay carry different IDs")
-		return
-	}
-	putM := st.Val
-	putErr := extractOfCallPred(lp.tryPut, 1)
-	isPutM := extractOfCallPred(lp.tryPut, 0)
-	// every path from tryPut to the fan-out with (m != nil) and (err == nil) passes the store
-	blocked := map[cfgEdge]bool{}
-	for _, ifi := range ifsIn(fn) {
-		for e := 0; e < 2; e++ {
-			if edgeEstablishes(ifi, e, factNil(isPutM, true)) || edgeEstablishes(ifi, e, factNil(putErr, false)) {
-				blocked[cfgEdge{ifi.Block(), e}] = true
-			}
-		}
-	}
 	target := ssa.Instruction(lp.rng)
 	if lp.rng == nil {
 		target = send
 	}
-	skip := reachesAvoiding(afterInstr(lp.tryPut), target, func(in ssa.Instruction) bool { return in == ssa.Instruction(st) }, blocked)
-	c.check(!skip, name, P.ipos(st), "when Put succeeds with a non-nil message, that message replaces the one that is fanned out",
-		"a path with a successful Put (err == nil, m != nil) reaches the fan-out without storing m: the event is delivered live without the ID under which it was buffered")
-	// and the store is itself guarded by m != nil (never fan out nil)
-	_ = putM
-	c.check(guardedByNil(fn, st.Block(), isPutM, false), fnLabel(fn)+":store-guard", P.ipos(st),
-		"the replacement happens only for a non-nil message", "Put's result replaces the message without a nil check: a replayer returning (nil, nil) makes Joe send nil")
+	if st != nil {
+		skip := reachesAvoiding(afterInstr(lp.tryPut), target, func(in ssa.Instruction) bool { return in == ssa.Instruction(st) }, blocked)
+		c.check(!skip, name, P.ipos(st), "when Put succeeds with a non-nil message, that message replaces the one that is fanned out",
+			"a path with a successful Put (err == nil, m != nil) reaches the fan-out without storing m: the event is delivered live without the ID under which it was buffered")
+		c.check(guardedByNil(fn, st.Block(), isPutM, false), fnLabel(fn)+":store-guard", P.ipos(st),
+			"the replacement happens only for a non-nil message", "Put's result replaces the message without a nil check: a replayer returning (nil, nil) makes Joe send nil")
+		return
+	}
+	// form B: the message to deliver is a local that merges the published message with Put's result
+	// (a phi, possibly inside an inlined helper whose result is what is sent)
+	var merge *ssa.Phi
+	for _, f := range region {
+		eachInstr(f, func(in ssa.Instruction) {
+			phi, ok := in.(*ssa.Phi)
+			if !ok {
+				return
+			}
+			has := false
+			for _, e := range phi.Edges {
+				for _, sv := range sources(e) {
+					if isPutM(sv) {
+						has = true
+					}
+				}
+			}
+			if has && viaPut {
+				merge = phi
+			}
+		})
+	}
+	if merge == nil {
+		c.bad(name, P.ipos(lp.tryPut), "Put's returned message (the copy that carries the automatic ID) is never stored into the message that is fanned out: live delivery and replay carry different IDs")
+		return
+	}
+	okMerge, guardOK := true, true
+	for i, e := range merge.Edges {
+		pred := merge.Block().Preds[i]
+		fromPut := false
+		for _, sv := range sources(e) {
+			if isPutM(sv) {
+				fromPut = true
+			}
+		}
+		if fromPut {
+			if !predEstablishes(pred, merge.Block(), factNil(isPutM, false), merge.Parent()) {
+				guardOK = false
+			}
+			continue
+		}
+		// the published message is kept: not on a path on which Put succeeded with a message
+		if lp.tryPut.Parent() == merge.Parent() && len(pred.Instrs) > 0 {
+			last := pred.Instrs[len(pred.Instrs)-1]
+			if reachesAvoiding(afterInstr(lp.tryPut), last, nil, blocked) && instrDominates(lp.tryPut, last) {
+				// reachable after a Put without passing a "Put failed / returned nil" edge
+				edgeBlocked := false
+				if _, isIf := last.(*ssa.If); isIf {
+					for si, sb := range pred.Succs {
+						if sb == merge.Block() && blocked[cfgEdge{pred, si}] {
+							edgeBlocked = true
+						}
+					}
+				}
+				if !edgeBlocked {
+					okMerge = false
+				}
+			}
+		}
+	}
+	c.check(okMerge, name, P.ipos(merge), "when Put succeeds with a non-nil message, that message is the one that is fanned out (merged local)",
+		"a path with a successful Put (err == nil, m != nil) reaches the fan-out with the published message instead of Put's: the event is delivered live without the ID under which it was buffered")
+	c.check(guardOK, fnLabel(fn)+":store-guard", P.ipos(merge), "the replacement happens only for a non-nil message", "Put's result replaces the message without a nil check: a replayer returning (nil, nil) makes Joe send nil")
 }
 
 func r04_3(c *Ctx) {
@@ -977,7 +1092,7 @@ func r07_1(c *Ctx) {
 				return true
 			}
 			for _, o := range ownChans {
-				if stripConv(ch) == o {
+				if stripConv(ch) == o || carriesOnly(stripConv(ch), o) {
 					return true
 				}
 			}
@@ -1010,7 +1125,7 @@ func r07_1(c *Ctx) {
 				// plain receive: only from the call's own reply channel (always closed by the loop: R07.3)
 				own := false
 				for _, o := range ownChans {
-					if stripConv(x.X) == o {
+					if stripConv(x.X) == o || carriesOnly(stripConv(x.X), o) || replyThroughResult(x.X, o) {
 						own = true
 					}
 				}
@@ -1261,7 +1376,7 @@ func r07_5(c *Ctx) {
 			continue
 		}
 		var initCall ssa.Instruction
-		eachInstrDeep(fn, func(in ssa.Instruction) {
+		eachInstr(fn, func(in ssa.Instruction) {
 			if call, ok := in.(*ssa.Call); ok {
 				if callee := call.Call.StaticCallee(); callee != nil && callsOnceDo(callee) && initCall == nil {
 					initCall = in
@@ -1270,7 +1385,7 @@ func r07_5(c *Ctx) {
 		})
 		name := fnLabel(fn) + ":init-first"
 		bad := false
-		eachInstrDeep(fn, func(in ssa.Instruction) {
+		eachInstr(fn, func(in ssa.Instruction) {
 			v, ok := in.(ssa.Value)
 			if !ok {
 				return
@@ -1319,12 +1434,24 @@ func r07_6(c *Ctx) {
 		if !reach[fn] || !isJoeCode(P, fn) {
 			continue
 		}
-		eachInstrDeep(fn, func(in ssa.Instruction) {
+		eachInstr(fn, func(in ssa.Instruction) {
 			bad := ""
 			switch x := in.(type) {
 			case *ssa.Select:
 				if x != jp.sel && x.Blocking {
 					bad = "a second blocking select"
+				}
+				if x != jp.sel && !x.Blocking {
+					// a poll of one of Joe's own request channels in the middle of handling another request:
+					// requests are served one at a time, in the order the main select takes them
+					for _, st := range x.States {
+						if st.Dir == types.RecvOnly {
+							if _, ok := isFieldLoad(st.Chan, "Joe", "~"); ok || isJoeChanLoad(st.Chan) {
+								n++
+								c.bad(fnLabel(fn)+":request-taken-mid-handling", P.ipos(in), "the loop goroutine receives from one of Joe's request channels outside its main select: an unsubscription (subscription, message, shutdown) is acted on in the middle of a delivery, so a subscriber can lose a message that was published before it asked to leave")
+							}
+						}
+					}
 				}
 			case *ssa.UnOp:
 				if x.Op == token.ARROW {
@@ -1458,6 +1585,34 @@ func r17_1(c *Ctx) {
 	if n == 0 {
 		c.bad(fnLabel(fn)+":fan-out-error-edge", P.ipos(send), "the result of Send/Flush is never tested: a failing subscriber is never removed and its error never reported")
 	}
+	// the error handed to the subscriber is the one that was found non-nil: on every path from the Send to
+	// a send on the subscriber's channel, the value sent (as it resolves on that path) was tested non-nil
+	if si, ok := send.(ssa.Instruction); ok {
+		paths, okP := walkPaths(si.Block(), instrIndex(si)+1, 2048, nil, func(in ssa.Instruction) bool {
+			x, ok := in.(*ssa.Send)
+			return ok && isKey(x.Chan)
+		}, func(e cfgEdge) bool { return e.From.Succs[e.Idx] == lp.next.Block() })
+		bad := ""
+		nSent := 0
+		if okP {
+			for _, p := range paths {
+				x, ok := p.End.(*ssa.Send)
+				if !ok {
+					continue
+				}
+				nSent++
+				v := p.St.resolve(x.X)
+				if !pathEstablishes(p.St, factNil(func(y ssa.Value) bool { return y == v || p.St.resolve(y) == v }, false)) {
+					bad = "a path sends a value to the failing subscriber that was not the error found non-nil on that path (e.g. Send's nil result after Flush failed): Subscribe returns nil for a subscriber that was removed because of an error"
+				}
+			}
+		}
+		if okP && nSent > 0 {
+			c.check(bad == "", fnLabel(fn)+":fan-out-error-value", P.ipos(si), "the value sent to the failing subscriber is the error that was found non-nil on that path", bad)
+		} else {
+			c.ok(fnLabel(fn)+":fan-out-error-value", P.ipos(si), "not decided path-wise (the send on the subscriber's channel is not in the Send's function)")
+		}
+	}
 	// Send's error must reach the test: Send's result flows into the tested value
 	c.ok(fnLabel(fn)+":fan-out-error-sources", P.ipos(send), "error edge tests the Send/Flush result of the current subscriber")
 }
@@ -1586,6 +1741,7 @@ func r17_2(c *Ctx) {
 }
 
 func r17_3(c *Ctx) {
+	var handlersSeen map[*ssa.Function]bool
 	P := c.P
 	lp := findLoop(P)
 	if lp.fn == nil {
@@ -1598,7 +1754,10 @@ func r17_3(c *Ctx) {
 			continue
 		}
 		var invokes []ssa.CallInstruction
-		eachInstrDeep(fn, func(in ssa.Instruction) {
+		if handlersSeen == nil {
+			handlersSeen = map[*ssa.Function]bool{}
+		}
+		eachInstr(fn, func(in ssa.Instruction) {
 			for _, m := range []string{"Put", "Replay"} {
 				if ci, ok := isInvoke(in, "sse", "Replayer", m); ok {
 					invokes = append(invokes, ci)
@@ -1609,7 +1768,7 @@ func r17_3(c *Ctx) {
 			name := fnLabel(fn) + ":invoke(Replayer." + inv.Common().Method.Name() + ")"
 			good := false
 			var why string
-			eachInstrDeep(fn, func(d ssa.Instruction) {
+			eachInstr(fn, func(d ssa.Instruction) {
 				df, ok := d.(*ssa.Defer)
 				if !ok || !instrDominates(df, inv) {
 					return
@@ -1626,6 +1785,21 @@ func r17_3(c *Ctx) {
 				if recoverDisables(h) {
 					// the handler's replayer pointer is this function's replayer pointer parameter and the error pointer is its named result cell
 					good = true
+					if !handlersSeen[h] {
+						handlersSeen[h] = true
+						at, what := handlerMayPanic(h)
+						pos := P.pos(h.Pos())
+						if at != nil {
+							pos = P.ipos(at)
+						}
+						if fm := recoverForeignMarker(h); fm != nil {
+							c.bad(fnLabel(h)+":marker-only", P.ipos(fm), "the recover handler stores an error other than the panic marker itself: the loop recognises a replayer panic by the marker's type, so this panic is reported to Publish/Subscribe as an ordinary replayer error instead of being absorbed")
+						} else {
+							c.ok(fnLabel(h)+":marker-only", P.pos(h.Pos()), "the handler stores only the panic marker through its error pointer")
+						}
+						c.check(at == nil, fnLabel(h)+":handler-cannot-panic", pos, "the recover handler contains no operation that can panic on some recovered value",
+							"the recover handler itself can panic ("+what+"): a replayer panicking with such a value takes Joe's goroutine - and the process - down")
+					}
 				} else {
 					why = "deferred " + fnLabel(h) + " does not (recover, set the replayer variable to nil, store the panic marker)"
 				}
@@ -1633,9 +1807,19 @@ func r17_3(c *Ctx) {
 			// the invoked value is loaded from the *Replayer parameter that the handler nils
 			recvOK := false
 			if a, ok := loadedFrom(inv.Common().Value); ok {
-				if p, ok := a.(*ssa.Parameter); ok {
-					if pt, ok := p.Type().Underlying().(*types.Pointer); ok && typeIs(pt.Elem(), "sse", "Replayer") {
-						recvOK = true
+				cands := []ssa.Value{a}
+				if _, isP := a.(*ssa.Parameter); !isP {
+					cands = sources(a) // the parameter may be spilled because a deferred literal captures it
+				}
+				recvOK = len(cands) > 0
+				for _, cv := range cands {
+					p, ok := cv.(*ssa.Parameter)
+					if !ok {
+						recvOK = false
+						break
+					}
+					if pt, ok := p.Type().Underlying().(*types.Pointer); !ok || !typeIs(pt.Elem(), "sse", "Replayer") {
+						recvOK = false
 					}
 				}
 			}
@@ -1652,9 +1836,93 @@ func r17_3(c *Ctx) {
 			continue
 		}
 		name := fnLabel(lp.fn) + ":nil-guard(" + fnLabel(call.Call.StaticCallee()) + ")"
-		c.check(guardedByNil(lp.fn, call.Block(), lp.isReplayLoad, false), name, P.ipos(call), "used only under a != nil test of a fresh load of the shared replayer variable",
+		guarded := guardedByNil(lp.fn, call.Block(), lp.isReplayLoad, false)
+		if !guarded {
+			// or the helper itself tests the variable (through its *Replayer parameter) before it invokes it
+			if h := call.Call.StaticCallee(); h != nil && h.Blocks != nil {
+				var ptr *ssa.Parameter
+				for _, p := range h.Params {
+					if pt, ok := p.Type().Underlying().(*types.Pointer); ok && typeIs(pt.Elem(), "sse", "Replayer") {
+						ptr = p
+					}
+				}
+				if ptr != nil {
+					isLoad := func(v ssa.Value) bool { a, ok := loadedFrom(v); return ok && a == ssa.Value(ptr) }
+					all, n := true, 0
+					eachInstrDeep(h, func(in ssa.Instruction) {
+						ci, ok := in.(ssa.CallInstruction)
+						if !ok || !ci.Common().IsInvoke() || !typeIs(ci.Common().Value.Type(), "sse", "Replayer") {
+							return
+						}
+						n++
+						if !guardedByNil(h, in.Block(), isLoad, false) {
+							all = false
+						}
+					})
+					guarded = all && n > 0
+				}
+			}
+		}
+		c.check(guarded, name, P.ipos(call), "used only under a != nil test of a fresh load of the shared replayer variable",
 			"the replayer helper is called without testing the shared replayer variable against nil: after a panic disabled it, the next call dereferences nil")
 	}
+}
+
+// handlerMayPanic: an operation in a recover handler that panics for some recovered value or state: an
+// unchecked type assertion, an explicit panic, an interface method call (e.g. on the recovered value),
+// indexing, a map update, a channel send or close.
+func handlerMayPanic(h *ssa.Function) (at ssa.Instruction, what string) {
+	eachInstrDeep(h, func(x ssa.Instruction) {
+		if at != nil {
+			return
+		}
+		switch y := x.(type) {
+		case *ssa.TypeAssert:
+			if !y.CommaOk {
+				at, what = x, "unchecked type assertion to "+y.AssertedType.String()
+			}
+		case *ssa.Panic:
+			at, what = x, "explicit panic"
+		case *ssa.Index, *ssa.IndexAddr, *ssa.Slice:
+			// the argument array of a variadic call (a fresh local array, constant index) cannot fail
+			var base ssa.Value
+			switch z := y.(type) {
+			case *ssa.IndexAddr:
+				base = z.X
+				if _, isK := z.Index.(*ssa.Const); !isK {
+					base = nil
+				}
+			case *ssa.Slice:
+				if z.Low == nil && z.High == nil {
+					base = z.X
+				}
+			}
+			if al, ok := base.(*ssa.Alloc); ok {
+				if _, isArr := deref(al.Type()).Underlying().(*types.Array); isArr {
+					return
+				}
+			}
+			at, what = x, "index or slice operation"
+		case *ssa.MapUpdate:
+			at, what = x, "map update"
+		case *ssa.Send:
+			at, what = x, "channel send"
+		case *ssa.Call:
+			if y.Call.IsInvoke() {
+				at, what = x, "interface method call "+y.Call.Method.Name()
+			}
+			if b, ok := y.Call.Value.(*ssa.Builtin); ok && b.Name() == "close" {
+				at, what = x, "close of a channel"
+			}
+		case *ssa.BinOp:
+			if y.Op == token.QUO || y.Op == token.REM {
+				if _, isK := y.Y.(*ssa.Const); !isK {
+					at, what = x, "division"
+				}
+			}
+		}
+	})
+	return at, what
 }
 
 // recoverDisables: h calls recover() and, under != nil, stores nil through a
@@ -1687,6 +1955,39 @@ func recoverDisables(h *ssa.Function) bool {
 		}
 	})
 	return nilled && marked
+}
+
+// recoverForeignMarker: a store through the handler's *error parameter, under recover() != nil, of a value
+// that is not the panic marker itself (the loop recognises the marker by its dynamic type, so a wrapped or
+// different error is treated as an ordinary replayer error).
+func recoverForeignMarker(h *ssa.Function) ssa.Instruction {
+	var rec ssa.Value
+	eachInstrDeep(h, func(x ssa.Instruction) {
+		if b, ok := isBuiltin(x, "recover"); ok {
+			rec = b.Value()
+		}
+	})
+	var at ssa.Instruction
+	eachInstrDeep(h, func(x ssa.Instruction) {
+		st, ok := x.(*ssa.Store)
+		if !ok || rec == nil || at != nil {
+			return
+		}
+		pt, ok := st.Addr.Type().Underlying().(*types.Pointer)
+		if !ok || pt.Elem().String() != "error" {
+			return
+		}
+		if _, isP := stripPhi(st.Addr).(*ssa.Parameter); !isP {
+			if _, isFV := st.Addr.(*ssa.FreeVar); !isFV {
+				return
+			}
+		}
+		if mi, ok := st.Val.(*ssa.MakeInterface); ok && typeIs(mi.X.Type(), "sse", "replayPanic") {
+			return
+		}
+		at = st
+	})
+	return at
 }
 
 func r17_4(c *Ctx) {
@@ -1879,4 +2180,91 @@ func fnPkgPath(f *ssa.Function) string {
 		return obj.Pkg().Path()
 	}
 	return ""
+}
+
+// boundMethodTarget: for the synthetic wrapper go/ssa creates for a method value (x.m), the method it calls.
+func boundMethodTarget(w *ssa.Function) *ssa.Function {
+	if w == nil || w.Synthetic == "" || !strings.Contains(w.Synthetic, "bound method wrapper") {
+		return nil
+	}
+	var target *ssa.Function
+	eachInstr(w, func(in ssa.Instruction) {
+		if ci, ok := in.(ssa.CallInstruction); ok {
+			if callee := ci.Common().StaticCallee(); callee != nil {
+				target = callee
+			}
+		}
+	})
+	return target
+}
+
+// closureStaysLocal: every MakeClosure of the literal is used only as the callee of a call, defer or go
+// in its lexical parent (it is not stored, passed or returned).
+func closureStaysLocal(lit *ssa.Function) bool {
+	par := lit.Parent()
+	if par == nil {
+		return false
+	}
+	found, local := false, true
+	eachInstr(par, func(in ssa.Instruction) {
+		mc, ok := in.(*ssa.MakeClosure)
+		if !ok || mc.Fn != ssa.Value(lit) {
+			return
+		}
+		found = true
+		for _, r := range *mc.Referrers() {
+			ci, isCall := r.(ssa.CallInstruction)
+			if !isCall || ci.Common().Value != ssa.Value(mc) {
+				local = false
+			}
+		}
+	})
+	if !found {
+		// a literal without free variables is referenced as a plain function value
+		eachInstr(par, func(in ssa.Instruction) {
+			if ci, ok := in.(ssa.CallInstruction); ok && ci.Common().Value == ssa.Value(lit) {
+				found = true
+			}
+			for _, op := range in.Operands(nil) {
+				if *op == ssa.Value(lit) {
+					if ci, ok := in.(ssa.CallInstruction); !ok || ci.Common().Value != ssa.Value(lit) {
+						local = false
+					}
+				}
+			}
+		})
+	}
+	return found && local
+}
+
+// replyThroughResult: v is the reply channel as handed back by an inlined helper: every non-nil origin
+// of v is the reply channel (the helper returns nil beside "not accepted").
+func replyThroughResult(v ssa.Value, reply ssa.Value) bool {
+	src := sources(v)
+	some := false
+	for _, sv := range src {
+		if isNilConst(sv) {
+			continue
+		}
+		if stripConvAll(sv) == reply || carriesOnlyConv(sv, reply) {
+			some = true
+			continue
+		}
+		return false
+	}
+	return some
+}
+
+// isJoeChanLoad: v is a load of a channel-typed field of Joe.
+func isJoeChanLoad(v ssa.Value) bool {
+	a, ok := loadedFrom(v)
+	if !ok {
+		return false
+	}
+	o, _, _, ok := fieldSel(a)
+	if !ok || o != "Joe" {
+		return false
+	}
+	_, isChan := v.Type().Underlying().(*types.Chan)
+	return isChan
 }
